@@ -137,8 +137,11 @@ func (f *FibStrategyTree) FindNextHopsEnc(name enc.Name) []*FibNextHopEntry {
 	var nexthops []*FibNextHopEntry
 	for ; curNode != nil; curNode = curNode.parent {
 		if len(curNode.nexthops) > 0 {
+			// Copy the entries, not just the slice: they are updated in place
 			nexthops = make([]*FibNextHopEntry, len(curNode.nexthops))
-			copy(nexthops, curNode.nexthops)
+			for i, nh := range curNode.nexthops {
+				nexthops[i] = &FibNextHopEntry{Nexthop: nh.Nexthop, Cost: nh.Cost}
+			}
 			break
 		}
 	}
